@@ -313,19 +313,25 @@ fn check_real(case: &MixCase, seed: u64, rep: &mut Report, rs: &mut RealStats) {
         rs.proofs += 1;
         let proof = prove(&plain, 1).map_err(|e| ("rejects-honest".to_string(), format!("the real prover fails on the honest case: {e:?}")))?;
         // exact vector
+        // vectors one shorter / one longer. The verifier absorbs the instance into the transcript, so
+        // each variant gets its own proof: at the PLONK level the extra cell is unconstrained and a
+        // dropped trailing zero leaves the instance polynomial unchanged — only the recorded count
+        // can reject these.
+        let mut variants: Vec<(&str, Vec<F>)> = vec![("one longer (trailing zero)", [plain.clone(), vec![F::ZERO]].concat()), ("one longer (trailing one)", [plain.clone(), vec![F::ONE]].concat())];
+        if plain.last() == Some(&F::ZERO) {
+            variants.push(("one shorter (trailing zero dropped)", plain[..plain.len() - 1].to_vec()));
+        }
         if let Err(e) = verify(&plain, com, &proof) {
-            // is it the count? (the padded / truncated vector describes the same instance polynomial
-            // when the dropped / added element is zero)
-            let mut alt: Vec<(&str, Vec<F>)> = vec![("one longer", [plain.clone(), vec![F::ZERO]].concat())];
-            if plain.last() == Some(&F::ZERO) {
-                alt.push(("one shorter", plain[..plain.len() - 1].to_vec()));
-            }
-            for (what, inst) in alt {
-                if verify(&inst, com, &proof).is_ok() {
-                    return Err((
-                        "count-mismatch".into(),
-                        format!("verify rejects the exact off-circuit encoding ({} raw public inputs: {e:?}) but accepts a vector {what}: the number recorded at key generation is not the number of exposed raw public inputs", plain.len()),
-                    ));
+            // is it the count?
+            for (what, inst) in &variants {
+                rs.proofs += 1;
+                if let Ok(p2) = prove(inst, 3) {
+                    if verify(inst, com, &p2).is_ok() {
+                        return Err((
+                            "count-mismatch".into(),
+                            format!("verify rejects the exact off-circuit encoding ({} raw public inputs: {e:?}) but accepts a proof for the vector {what}: the number recorded at key generation is not the number of exposed raw public inputs", plain.len()),
+                        ));
+                    }
                 }
             }
             return Err((
@@ -333,27 +339,23 @@ fn check_real(case: &MixCase, seed: u64, rep: &mut Report, rs: &mut RealStats) {
                 format!("verify rejects the honest proof with the off-circuit encoding ({} raw public inputs, {} committed): {e:?}", plain.len(), committed.len()),
             ));
         }
-        // one shorter / one longer than what setup recorded
-        let mut variants: Vec<(&str, Vec<F>)> = vec![];
         if !plain.is_empty() {
             variants.push(("one shorter", plain[..plain.len() - 1].to_vec()));
         }
-        let mut longer = plain.clone();
-        longer.push(F::ZERO);
-        variants.push(("one longer (trailing zero)", longer.clone()));
-        let mut longer1 = plain.clone();
-        longer1.push(F::ONE);
-        variants.push(("one longer (trailing one)", longer1));
-        for (what, inst) in &variants {
+        for (n, (what, inst)) in variants.iter().enumerate() {
+            // the honest proof with the other vector
             if verify(inst, com, &proof).is_ok() {
-                return Err(("count-mismatch".into(), format!("verify accepts an instance vector {what} than the {} raw public inputs the circuit exposes", plain.len())));
+                return Err(("count-mismatch".into(), format!("verify accepts the honest proof with an instance vector {what} than the {} raw public inputs the circuit exposes", plain.len())));
             }
-        }
-        // a proof made for the longer vector (the extra cell is unconstrained at the PLONK level)
-        rs.proofs += 1;
-        if let Ok(p2) = prove(&longer, 2) {
-            if verify(&longer, com, &p2).is_ok() {
-                return Err(("count-mismatch".into(), "a proof made with one extra (unconstrained) raw public input verifies with that longer vector".into()));
+            // a proof made for that vector (a prover error counts as rejection)
+            rs.proofs += 1;
+            if let Ok(p2) = prove(inst, 4 + n as u64) {
+                if verify(inst, com, &p2).is_ok() {
+                    return Err((
+                        "count-mismatch".into(),
+                        format!("a proof made for an instance vector {what} than the {} raw public inputs the circuit exposes verifies with that vector", plain.len()),
+                    ));
+                }
             }
         }
         // edited positions
@@ -1111,6 +1113,11 @@ fn main() {
             }
         }
     }
+    // --only <substring of a job key> (debugging aid: restricts the workload, skips the off-circuit part)
+    let only = ctx.extra.get("only").cloned();
+    if let Some(o) = &only {
+        jobs.retain(|j| j.key().contains(o.as_str()));
+    }
     let planned: usize = jobs
         .iter()
         .map(|j| match j {
@@ -1120,6 +1127,9 @@ fn main() {
         .sum();
     if replay.is_none() {
         rep.min_nontrivial = (planned / 2) as u64;
+    }
+    if only.is_some() {
+        rep.min_nontrivial = 1;
     }
 
     // ---- run on plain OS threads (the prover's fault plan is thread-local; see c04.rs) ----
@@ -1160,6 +1170,7 @@ fn main() {
 
     // ---- off-circuit injectivity (cheap, sequential) ----
     let (inj, inj_v) = match &replay {
+        None if only.is_some() => (json!({}), json!({})),
         None => (
             injectivity(&all_kinds(true), ctx.tier.pick(300, 4000), &ctx, &mut rep, None),
             injectivity_verifier(ctx.tier.pick(10, 60), &ctx, &mut rep),
